@@ -4,8 +4,8 @@
 (*   [first  |-> BOOLEAN   the call starts on a fresh cache (cache.reset()),    *)
 (*    par    |-> "S"|"NS"|"None",  key |-> name,                               *)
 (*    filled |-> <<names of the slots that are not NaN after the call>>,        *)
-(*    eq     |-> <<names of filled slots whose value equals, bitwise or to      *)
-(*                 rounding, the direct evaluation of Canon(k) through the leaf *)
+(*    neq    |-> <<names of filled slots whose value differs (beyond rounding)  *)
+(*                 from the direct evaluation of Canon(k) through the leaf      *)
 (*                 functions>>,                                                 *)
 (*    reply  |-> class of |reply - Canon(key)| (0 bitwise, 1 rounding, 2 else), *)
 (*    same   |-> BOOLEAN   reply is bitwise the stored slot]                    *)
@@ -35,7 +35,7 @@ TNext == /\ i <= Len(TLog)
 Verdict(r, m) ==
   IF r.key \notin Keys \/ r.par \notin Parities THEN "CONF:unknown-key-or-flag"
   ELSE LET g == Get(r.key, Before(r, m), r.par) IN
-    IF SeqToSet(r.filled) \ SeqToSet(r.eq) # {} THEN "C24:slot-not-canon"
+    IF SeqToSet(r.neq) # {} THEN "C24:slot-not-canon"
     ELSE IF r.reply > 1 THEN "C24:reply-not-canon"
     ELSE IF ~r.same THEN "C24:reply-differs-from-slot"
     ELSE IF SeqToSet(r.filled) # Filled(g[1]) THEN "CONF:filled-set-differs-from-transcription"
